@@ -764,7 +764,7 @@ impl<'a> Gen<'a> {
             if small { 0 } else { 3 },                           // 9 if
             3,                                                   // 10 call a function
             if can_close { 3 } else { 0 },                       // 11 library call with a callback
-            if decl && can_close && !small { 6 } else { 0 },     // 12 idioms
+            if decl && can_close && !small { 8 } else { 0 },     // 12 idioms
             if fx.ret_int && !fx.is_main { 1 } else { 0 },       // 13 early return
         ];
         match self.rng.weighted(&w) {
@@ -889,7 +889,7 @@ impl<'a> Gen<'a> {
     fn for_each_stmt(&mut self, fx: &mut Fx, d1: u32) -> Vec<Card> {
         // over a table of closures (calling them) or over a table of integers
         let rank = fx.rank;
-        let tf = if self.rng.chance(1, 2) {
+        let tf = if self.rng.chance(3, 4) {
             self.pick_var(fx, false, |v| matches!(&v.k, K::TabFn(fk) if fk.rank < rank))
         } else {
             None
@@ -956,7 +956,10 @@ impl<'a> Gen<'a> {
         match self.rng.below(5) {
             0 => {
                 // closures made in a loop, stored in a table, called after the loop is over
-                let (cards, _) = self.loop_table(fx);
+                let (mut cards, tf) = self.loop_table(fx);
+                if self.rng.chance(3, 4) {
+                    cards.extend(self.call_all(fx, &tf));
+                }
                 cards
             }
             1 => {
@@ -1078,6 +1081,37 @@ impl<'a> Gen<'a> {
                 out
             }
         }
+    }
+    /// foreach e in tf { w<site>; e(args) }: every closure of the table is called, the loop that made them is over
+    fn call_all(&mut self, fx: &mut Fx, tf: &str) -> Vec<Card> {
+        let Some(v) = self.visible(fx).into_iter().find(|v| v.name == tf) else { return vec![] };
+        let K::TabFn(fk) = v.k.clone() else { return vec![] };
+        if fk.rank >= fx.rank {
+            return vec![];
+        }
+        self.note_use(fx, &v, false);
+        let e = self.fresh("e");
+        let kv = if self.rng.chance(1, 3) { Some(self.fresh("k")) } else { None };
+        let mut sc = vec![Var { name: e.clone(), k: K::Fn(fk.clone()), ro: true, global: false, level: 0, origin: Origin::LoopV }];
+        if let Some(k) = &kv {
+            sc.push(Var { name: k.clone(), k: K::Int, ro: true, global: false, level: 0, origin: Origin::LoopK });
+        }
+        fx.scopes.push(Scope::new(sc));
+        fx.loops.push(LoopKind::ForEach);
+        let top = std::mem::replace(&mut fx.top, false);
+        let args = self.args_for_arity(fx, fk.arity, false);
+        let mut cards = vec![];
+        if let Some(m) = self.marker(&fk) {
+            cards.push(m);
+        }
+        self.feat("call.closure_in_table");
+        self.feat("call.all_of_table_after_loop");
+        let call = Card::dynamic_call(rd(&e), args);
+        cards.extend(self.use_value(fx, true, call, &fk.ret));
+        fx.top = top;
+        fx.loops.pop();
+        fx.scopes.pop();
+        vec![for_each(None, kv, Some(e), rd(tf), block(cards))]
     }
     /// tf := {}; <loop> { locals; AppendTable(closure, tf); more }  - returns the cards and the variable
     fn loop_table(&mut self, fx: &mut Fx) -> (Vec<Card>, String) {
@@ -1508,6 +1542,13 @@ pub fn gen_program(rng: &mut Rng, feats: &mut BTreeMap<String, u64>) -> (Module,
         }
     }
     cards.extend(late);
+    let tabs_of_main: Vec<String> = g.visible(&fx).into_iter().filter(|v| matches!(v.k, K::TabFn(_))).map(|v| v.name).collect();
+    for tf in tabs_of_main {
+        if g.rng.chance(2, 3) {
+            let c = g.call_all(&mut fx, &tf);
+            cards.extend(c);
+        }
+    }
     let pos = g.rng.below(functions[0].len() as u64 + 1) as usize;
     functions[0].insert(pos, ("main".into(), Function { arguments: vec![], cards }));
     for (k, v) in g.feats.iter() {
